@@ -300,3 +300,13 @@ Print Assumptions C10_sar_spec.
 Theorem C10_byte_spec : forall i x, 0 <= i < 32 -> 0 <= x -> byte i x = Z.land (Z.shiftr x (8 * (31 - i))) 255.
 Proof. exact byte_spec. Qed.
 Print Assumptions C10_byte_spec.
+
+(** source tie: the stack-bound, static, gas, depth, balance, collision, code-size and bounds tests and the
+    word-size / memory-cost / call-gas arithmetic of the model are the expressions of kvm/interpreter.go,
+    kvm.go, gas.go, utils.go, stack.go, instructions.go, contract.go, memory.go, contracts.go and
+    lib/{math,common} themselves, as translated from /repo's working tree by go2coq on every check
+    (statement spelled out in SourceTie.v; operands pinned by the [_atoms] equalities) *)
+From Kardia Require Import C10.SourceTie.
+Theorem C10_source_tie : C10_source_tie_statement.
+Proof. exact C10_source_tie_proof. Qed.
+Print Assumptions C10_source_tie.
